@@ -256,6 +256,8 @@ fn helpers(check: &Check, rng: &mut Rng) {
     let mut fold: HashMap<PeerId, BTreeSet<Multiaddr>> = HashMap::new();
     let mut ever_peers: BTreeSet<PeerId> = BTreeSet::new();
     let mut ever_addrs: HashMap<PeerId, BTreeSet<Multiaddr>> = HashMap::new();
+    let mut lru: HashMap<PeerId, Vec<Multiaddr>> = HashMap::new();
+    let mut lru_checked = 0u64;
     let mut hist: Vec<String> = vec![];
     let mut sig = Sig::new().u64(cap as u64).u64(n_peers as u64).u64(addr_universe);
     let read = |pa: &mut PeerAddresses| -> BTreeMap<PeerId, BTreeSet<Multiaddr>> { peers.iter().map(|p| (*p, pa.get(p).collect::<BTreeSet<_>>())).filter(|(_, s)| !s.is_empty()).collect() };
@@ -281,6 +283,13 @@ fn helpers(check: &Check, rng: &mut Rng) {
                     }
                 };
                 fold.entry(p).or_default().insert(full.clone());
+                // reference for "the 10 most recently reported": re-reporting a known address makes it the most recent
+                let l = lru.entry(p).or_default();
+                l.retain(|x| *x != full);
+                l.push(full.clone());
+                if l.len() > 10 {
+                    l.remove(0);
+                }
                 ever_peers.insert(p);
                 ever_addrs.entry(p).or_default().insert(full.clone());
             }
@@ -289,6 +298,9 @@ fn helpers(check: &Check, rng: &mut Rng) {
                 changed = pa.remove(&p, &raw);
                 if let Some(s) = fold.get_mut(&p) {
                     s.remove(&full);
+                }
+                if let Some(l) = lru.get_mut(&p) {
+                    l.retain(|x| *x != full);
                 }
             }
             3 => {
@@ -301,6 +313,9 @@ fn helpers(check: &Check, rng: &mut Rng) {
                 for a in &addrs {
                     if let Some(s) = fold.get_mut(&p) {
                         s.remove(a);
+                    }
+                    if let Some(l) = lru.get_mut(&p) {
+                        l.retain(|x| x != a);
                     }
                 }
             }
@@ -335,6 +350,19 @@ fn helpers(check: &Check, rng: &mut Rng) {
                 check.violation("peer-addresses-not-subset-of-fold", format!("stored {s:?} not within fold {f:?}"), wit(&hist));
             }
         }
+        // per-peer capacity: as long as no peer can have been evicted, each peer holds exactly its 10 most recently
+        // reported (and not since removed) addresses
+        if ever_peers.len() <= cap {
+            for (q, l) in &lru {
+                let want: BTreeSet<Multiaddr> = l.iter().cloned().collect();
+                let got = after.get(q).cloned().unwrap_or_default();
+                if got != want {
+                    lru_checked += 1;
+                    check.violation("peer-addresses-not-the-most-recent", format!("stored for one peer: {got:?}; the 10 most recently reported are {want:?}"), wit(&hist));
+                }
+            }
+            lru_checked += 1;
+        }
         let no_eviction_possible = ever_peers.len() <= cap && ever_addrs.values().all(|s| s.len() <= 10);
         if no_eviction_possible {
             let want: BTreeMap<PeerId, BTreeSet<Multiaddr>> = fold.iter().filter(|(_, s)| !s.is_empty()).map(|(p, s)| (*p, s.clone())).collect();
@@ -345,6 +373,7 @@ fn helpers(check: &Check, rng: &mut Rng) {
     }
     check.case(sig.0, true);
     check.count("helper_histories", 2);
+    check.count("peer_addresses_most_recent_checks", lru_checked);
     if check.want_sample() {
         check.sample(json!({"part": "peer_addresses", "capacity": cap, "history": hist.iter().take(12).collect::<Vec<_>>()}));
     }
